@@ -10,6 +10,8 @@ taken from its undirected edges; a PDAG without undirected edges is returned as 
 all_dags(dag_to_cpdag(A)); (CHAIN) chain_graph_MEC builds, for every root i in range(p), a fresh zero
 matrix with edges j -> j-1 for j in [1, i] and j -> j+1 for j in [i, p-2]: lower endpoints [0, i-1] and
 [i, p-2] partition the p-1 chain edges, each oriented once, away from the root.
+Also decided (shared with C08 / C16): the construction of the CPDAG that mec enumerates from (order_edges / label_edges / assembly,
+role by role) and canonical v-structure triples, since membership compares sets of triples.
 Not decided: that all 2^u orientations are generated, uniqueness, shortcut = general path.
 """
 from .common import *
